@@ -1,86 +1,944 @@
+// C07: no source text crashes the host process. Compiling and running any
+// source text ends with program output, a reported Ego error or a timeout;
+// never with an unrecovered Go panic or a fatal runtime error, for `ego run`,
+// for the console and for the server's run endpoint.
+//
+// E-enum with containment. The parent enumerates (a) every token sequence up to
+// a length over a 48-token alphabet and (b) every single-token deletion,
+// duplication, adjacent swap and substitution of 40 pure seed programs
+// (thorough: also pairs of edits on a 10-program core), and hands them to
+// worker processes. A worker runs each text in-process through one of four
+// drivers that repeat the real entry points on the code of the working tree:
+// the RunAction session of `ego run <file>`, the piped-stdin variant, the
+// interactive console loop, and POST /admin/run through the real router and
+// RunCodeHandler; sandbox on, HOME/TMPDIR/cwd in the scratch directory, an
+// address-space limit, the id of the current text published before it runs, a
+// deterministic instruction budget (the woven per-instruction atomic add) and a
+// wall-clock watchdog in the parent (hangs are counted: the statement allows a
+// timeout). A Go panic coming out of a driver, or the death of a worker, makes
+// the text a candidate; candidates are grouped by the crashing function and
+// the smallest ones are re-run alone in a fresh process with nothing recovered
+// and, for the file and pipe drivers, with the plain `ego` binary. Only a crash
+// reproduced that way is reported.
 package main
 
 import (
+	"bufio"
 	"bytes"
 	"encoding/json"
 	"fmt"
-	"net/http"
-	"net/http/httptest"
 	"os"
+	"os/exec"
 	"path/filepath"
+	"regexp"
+	"sort"
 	"strings"
+	"sync"
 	"time"
 
-	"github.com/tucats/ego/internal/cli/app"
-	"github.com/tucats/ego/internal/commands"
-	"github.com/tucats/ego/internal/grammar/class"
-	"github.com/tucats/ego/internal/router"
-	egoio "github.com/tucats/ego/internal/runtime/io"
-	"github.com/tucats/ego/internal/server/admin"
+	"github.com/tucats/ego/internal/verifrt/report"
 )
 
-func main() {
-	scratch := os.Getenv("VERIF_SCRATCH")
-	warm := filepath.Join(scratch, "warm.ego")
-	_ = os.WriteFile(warm, []byte("func main() {\n fmt.Println(\"warm\")\n}\n"), 0o644)
+const (
+	nWorkers = 12
 
-	t0 := time.Now()
-	a := app.New("ego: verif").SetVersion(1, 0, 0).SetCopyright("-").SetDefaultAction(commands.RunAction).SetProfileDirectory(".ego")
-	err := a.Run(class.MainGrammar, []string{"ego", "run", "--sandbox=true", warm})
-	fmt.Println("warm", err, time.Since(t0))
+	// cpuLimitTicks is the processor time (USER_HZ ticks: 30 s) one evaluation
+	// may use before the parent ends the worker; hangLimit bounds the
+	// single-text confirmation runs. Timeouts are counted, never a verdict.
+	cpuLimitTicks = 30 * 100
+	hangLimit     = 15 * time.Second
+)
 
-	progs := []string{
-		"func main() {\n fmt.Println(1+2)\n}\n",
-		"func main() {\n x := 1/0 \n}\n",
-		"func main( {",
-		"x := [",
-		"func main() { for { } }",
-	}
-	for _, p := range progs[:4] {
-		t0 = time.Now()
-		n := 50
-		var ev int
-		for i := 0; i < n; i++ {
-			ev, err = commands.VerifC07RunSource(p, "x.ego", true)
+// procInfo reads the processor time a process has used (utime+stime, in
+// ticks) and whether any of its threads is running or runnable.
+func procInfo(pid int) (ticks int64, running bool) {
+	tasks, _ := os.ReadDir(fmt.Sprintf("/proc/%d/task", pid))
+
+	for _, t := range tasks {
+		b, err := os.ReadFile(fmt.Sprintf("/proc/%d/task/%s/stat", pid, t.Name()))
+		if err != nil {
+			continue
 		}
-		fmt.Printf("runsource %q -> %d %v  %v/op\n", p, ev, err, time.Since(t0)/time.Duration(n))
+
+		// pid (comm) state ppid ... utime(14) stime(15); comm may hold blanks
+		i := bytes.LastIndexByte(b, ')')
+		if i < 0 {
+			continue
+		}
+
+		f := strings.Fields(string(b[i+1:]))
+		if len(f) < 13 {
+			continue
+		}
+
+		if f[0] == "R" || f[0] == "D" {
+			running = true
+		}
+
+		var u, sy int64
+
+		fmt.Sscan(f[11], &u)
+		fmt.Sscan(f[12], &sy)
+
+		ticks += u + sy
 	}
 
-	rt := router.NewRouter("verif")
-	rt.New("/admin/run", admin.RunCodeHandler, http.MethodPost)
-	for _, p := range progs[:4] {
-		p = strings.Replace(p, "func main() {", "{", 1)
-		t0 = time.Now()
-		n := 200
-		var body string
-		for i := 0; i < n; i++ {
-			b, _ := json.Marshal(map[string]any{"code": p, "session": "11111111-1111-1111-1111-111111111111"})
-			r := httptest.NewRequest("POST", "/admin/run", bytes.NewReader(b))
-			w := httptest.NewRecorder()
-			rt.ServeHTTP(w, r)
-			body = fmt.Sprint(w.Code, " ", w.Body.String())
-		}
-		fmt.Printf("admin %q -> %s  %v/op\n", p, body, time.Since(t0)/time.Duration(n))
+	return ticks, running
+}
+
+var scratch = os.Getenv("VERIF_SCRATCH")
+
+type candidate struct {
+	Phase  int
+	Idx    int64
+	Kind   string // go_panic | death
+	Panic  string
+	Stack  string
+	Stderr string
+}
+
+type workerResult struct {
+	cands    []candidate
+	hangs    []candidate
+	strays   int
+	restarts int
+}
+
+func workerEnv(k int) []string {
+	home := filepath.Join(scratch, fmt.Sprintf("whome%d", k))
+	tmp := filepath.Join(scratch, "tmp")
+	_ = os.MkdirAll(home, 0o755)
+	_ = os.MkdirAll(tmp, 0o755)
+
+	return append(os.Environ(), "HOME="+home, "TMPDIR="+tmp, "GOMAXPROCS=2", "GOTRACEBACK=single")
+}
+
+func tail(path string, n int) string {
+	b, err := os.ReadFile(path)
+	if err != nil {
+		return ""
 	}
 
-	for _, p := range []string{"x := 1\nfmt.Println(x+1)\nfunc f() {\nfmt.Println(\"in f\")\n}\nf()\ny := [\n", "fmt.Println(3)\nexit\nfmt.Println(4)\n"} {
-		t0 = time.Now()
-		if err := egoio.VerifC07SetConsole(readCloser{strings.NewReader(p)}); err != nil {
-			fmt.Println("setconsole", err)
+	if len(b) > n {
+		b = b[len(b)-n:]
+	}
+
+	return string(b)
+}
+
+// runWorker drives shard k to completion, replacing the worker whenever it
+// dies, hangs or asks to be replaced.
+func runWorker(k int, tier string) workerResult {
+	var res workerResult
+
+	stFile := filepath.Join(scratch, fmt.Sprintf("w%d.state", k))
+	errFile := filepath.Join(scratch, fmt.Sprintf("w%d.err", k))
+
+	st, err := mapState(stFile, true)
+	if err != nil {
+		report.Fatal("cannot map worker state: %v", err)
+	}
+
+	resumePhase, resumeIdx := 0, int64(0)
+	setupFailures := 0
+	tStart := time.Now()
+
+	for {
+		pr, pw, err := os.Pipe()
+		if err != nil {
+			report.Fatal("%v", err)
 		}
-		ev, err := commands.VerifC07RunConsole(true)
-		fmt.Printf("repl %q -> %d %v %v\n", p, ev, err, time.Since(t0))
+
+		cmd := exec.Command(os.Args[0], "c07worker", "batch", fmt.Sprint(k), fmt.Sprint(nWorkers), tier,
+			fmt.Sprint(resumePhase), fmt.Sprint(resumeIdx), stFile, errFile)
+		cmd.Env = workerEnv(k)
+		cmd.Dir = scratch
+		cmd.ExtraFiles = []*os.File{pw}
+
+		st.set(stInflight, 0)
+
+		startSeq := st.get(stSeq)
+
+		if err := cmd.Start(); err != nil {
+			report.Fatal("cannot start worker: %v", err)
+		}
+
+		_ = pw.Close()
+
+		var (
+			recs   []record
+			recsWG sync.WaitGroup
+		)
+
+		recsWG.Add(1)
+
+		go func() {
+			defer recsWG.Done()
+
+			sc := bufio.NewScanner(pr)
+			sc.Buffer(make([]byte, 1<<16), 1<<22)
+
+			for sc.Scan() {
+				var rc record
+				if json.Unmarshal(sc.Bytes(), &rc) == nil {
+					recs = append(recs, rc)
+				}
+			}
+		}()
+
+		exited := make(chan error, 1)
+
+		go func() { exited <- cmd.Wait() }()
+
+		lastSeq, lastChange := startSeq, time.Now()
+		cpuAtChange, _ := procInfo(cmd.Process.Pid)
+		quiet := 0
+		hung := false
+
+	wait:
+		for {
+			select {
+			case <-exited:
+				break wait
+			case <-time.After(100 * time.Millisecond):
+				cpu, running := procInfo(cmd.Process.Pid)
+
+				if s := st.get(stSeq); s != lastSeq {
+					lastSeq, lastChange, cpuAtChange, quiet = s, time.Now(), cpu, 0
+
+					continue
+				}
+
+				if st.get(stInflight) != 1 {
+					// between evaluations (set-up, settling): only the long
+					// safety net applies
+					if time.Since(lastChange) > 10*time.Minute {
+						hung = true
+					}
+				} else {
+					// The watchdog of one evaluation. Blocked: no thread of the
+					// worker runnable and no processor time used for a second
+					// (a deadlocked interpreter stays that way). Spinning:
+					// more than cpuLimit of processor time on one text. Both
+					// are counted as timeouts, which the statement allows.
+					if running {
+						quiet -= 3 // a runtime thread waking up now and then is not progress
+						if quiet < 0 {
+							quiet = 0
+						}
+					} else {
+						quiet++
+					}
+
+					switch {
+					case quiet >= 12:
+						hung = true
+					case cpu-cpuAtChange > cpuLimitTicks:
+						hung = true
+					case time.Since(lastChange) > 15*time.Minute:
+						hung = true
+					}
+				}
+
+				if hung {
+					_ = cmd.Process.Kill()
+					<-exited
+
+					break wait
+				}
+			}
+		}
+
+		recsWG.Wait()
+		_ = pr.Close()
+
+		for _, rc := range recs {
+			switch rc.Kind {
+			case "go_panic", "router_panic":
+				res.cands = append(res.cands, candidate{Phase: rc.Phase, Idx: rc.Idx, Kind: rc.Kind, Panic: rc.Panic, Stack: rc.Stack})
+			case "stray":
+				res.strays++
+			}
+		}
+
+		if st.get(stDone) == 1 {
+			return res
+		}
+
+		started := st.get(stSeq) != startSeq
+		cur := candidate{Phase: int(st.get(stPhase)), Idx: int64(st.get(stIdx))}
+
+		switch {
+		case !started:
+			// died or hung before the first evaluation: the harness, not a text
+			setupFailures++
+			if setupFailures >= 3 {
+				report.Fatal("worker %d cannot start: %s", k, tail(errFile, 2000))
+			}
+
+			continue
+
+		case hung && st.get(stInflight) == 1:
+			cur.Kind = "hang"
+			res.hangs = append(res.hangs, cur)
+
+		case st.get(stInflight) == 1:
+			cur.Kind = "death"
+			cur.Stderr = tail(errFile, 16000)
+			res.cands = append(res.cands, cur)
+		}
+
+		fmt.Fprintf(os.Stderr, "C07-INFO worker %d replaced at phase %d text %d (%s) after %.0fs\n", k, cur.Phase, cur.Idx, cur.Kind, time.Since(tStart).Seconds())
+
+		setupFailures = 0
+		res.restarts++
+		resumePhase, resumeIdx = cur.Phase, cur.Idx+1
 	}
 }
 
-type readCloser struct{ r *strings.Reader }
+// ---- classification of a crash trace ------------------------------------------
 
-func (readCloser) Close() error { return nil }
+var (
+	reGoroutine = regexp.MustCompile(`(?m)^goroutine \d+ (gp=\S+ m=\S+ (mp=\S+ )?)?\[`)
+	reCrashHead = regexp.MustCompile(`(?m)^(panic: |fatal error: |runtime: |SIGSEGV|unexpected fault address).*$`)
+	reFrame     = regexp.MustCompile(`(?m)^(github\.com/tucats/ego/[^\s(]+(?:\([^)]*\))?[^\s(]*)\(`)
+)
 
-func (rc readCloser) Read(p []byte) (int, error) {
-	if rc.r.Len() > 0 {
-		return rc.r.Read(p)
+// goCrash reports whether the output of a process shows a Go run-time crash
+// (as opposed to an Ego-level panic message, which has no goroutine dump) and
+// returns its head line.
+func goCrash(out string) (bool, string) {
+	if !reGoroutine.MatchString(out) {
+		return false, ""
 	}
-	p[0] = 4
-	return 1, nil
+
+	h := reCrashHead.FindString(out)
+	if h == "" {
+		return false, ""
+	}
+
+	return true, h
+}
+
+// ladder is the expression precedence chain every expression goes down: in a
+// runaway recursion the frame the stack limit happens to hit is one of these,
+// and says nothing about which construct recurses.
+var ladder = map[string]bool{
+	"conditional": true, "logicalOr": true, "logicalAnd": true, "relations": true, "addSubtract": true,
+	"multiplyDivide": true, "unary": true, "functionOrReference": true, "reference": true, "expressionAtom": true,
+	"Expression": true, "emitExpression": true, "compileExpression": true,
+}
+
+// crashSite names the function a Go crash trace points at: the first frame of
+// tucats/ego code that is not one of the harness's own entry points; for a
+// stack overflow, the first (alphabetically) function of the recursion cycle
+// that is not part of the expression precedence chain.
+func crashSite(trace string) string {
+	var frames []string
+
+	for _, m := range reFrame.FindAllStringSubmatch(trace, -1) {
+		f := strings.TrimPrefix(m[1], "github.com/tucats/ego/internal/")
+		if strings.HasPrefix(f, "verifharness/") || strings.HasPrefix(f, "verifrt/") || strings.Contains(f, "VerifC07") ||
+			strings.HasPrefix(f, "router.reportRequestPanic") || strings.HasPrefix(f, "router.(*Router).ServeHTTP") {
+			continue
+		}
+
+		frames = append(frames, f)
+	}
+
+	if len(frames) == 0 {
+		return "unknown"
+	}
+
+	if !strings.Contains(trace, "stack overflow") && !strings.Contains(trace, "goroutine stack exceeds") {
+		return frames[0]
+	}
+
+	if len(frames) > 60 {
+		frames = frames[:60]
+	}
+
+	sort.Strings(frames)
+
+	for _, f := range frames {
+		if !ladder[f[strings.LastIndexByte(f, '.')+1:]] {
+			return "stack-overflow:" + f
+		}
+	}
+
+	return "stack-overflow:" + frames[0]
+}
+
+var (
+	reNumber = regexp.MustCompile(`\d+`)
+	reHex    = regexp.MustCompile(`0x[0-9a-f]+`)
+)
+
+func panicClass(p string) string {
+	p = strings.TrimPrefix(p, "panic: ")
+	if i := strings.IndexByte(p, '\n'); i >= 0 {
+		p = p[:i]
+	}
+
+	p = reHex.ReplaceAllString(p, "X")
+	p = reNumber.ReplaceAllString(p, "N")
+
+	if i := strings.Index(p, " [recovered]"); i >= 0 {
+		p = p[:i]
+	}
+
+	if len(p) > 80 {
+		p = p[:80]
+	}
+
+	return p
+}
+
+// ---- confirmation ------------------------------------------------------------
+
+type confirmation struct {
+	Single     string `json:"fresh_worker"`          // crashed | survived | timeout
+	SingleHead string `json:"fresh_worker_crash,omitempty"`
+	Real       string `json:"ego_binary,omitempty"`  // crashed | survived | timeout | n/a
+	RealHead   string `json:"ego_binary_crash,omitempty"`
+	RealExit   int    `json:"ego_binary_exit,omitempty"`
+	Site       string `json:"crash_site,omitempty"`
+	Trace      string `json:"trace,omitempty"`
+}
+
+var confirmSeq int
+
+func runLimited(cmd *exec.Cmd, limit time.Duration) (out string, exit int, timedOut bool) {
+	var buf bytes.Buffer
+
+	cmd.Stdout = &buf
+	cmd.Stderr = &buf
+
+	if err := cmd.Start(); err != nil {
+		return err.Error(), -1, false
+	}
+
+	done := make(chan error, 1)
+
+	go func() { done <- cmd.Wait() }()
+
+	select {
+	case err := <-done:
+		if ee, ok := err.(*exec.ExitError); ok {
+			exit = ee.ExitCode()
+		}
+	case <-time.After(limit):
+		_ = cmd.Process.Kill()
+		<-done
+
+		timedOut = true
+	}
+
+	out = buf.String()
+	if len(out) > 1<<20 {
+		out = out[:1<<19] + "\n...\n" + out[len(out)-(1<<19):]
+	}
+
+	return out, exit, timedOut
+}
+
+func trimTrace(t string) string {
+	if i := reCrashHead.FindStringIndex(t); i != nil {
+		t = t[i[0]:]
+	}
+
+	lines := strings.Split(t, "\n")
+	if len(lines) > 60 {
+		lines = lines[:60]
+	}
+
+	return strings.Join(lines, "\n")
+}
+
+var primed sync.Once
+
+// confirm runs one text alone: in a fresh worker process with nothing
+// recovered and, for the file and pipe drivers, with the plain ego binary.
+func confirm(driver int, src string, extra ...string) confirmation {
+	confirmSeq++
+
+	var c confirmation
+
+	dir := filepath.Join(scratch, fmt.Sprintf("confirm%d", confirmSeq))
+	_ = os.MkdirAll(dir, 0o755)
+
+	defer os.RemoveAll(dir)
+
+	file := filepath.Join(dir, "verif.ego")
+	_ = os.WriteFile(file, []byte(src), 0o644)
+
+	var (
+		crashed  bool
+		head     string
+		timedOut bool
+		trace    string
+	)
+
+	errFile := filepath.Join(dir, "single.err")
+
+	if len(extra) == 0 {
+		cmd := exec.Command(os.Args[0], "c07worker", "single", fmt.Sprint(driver), file, errFile)
+		cmd.Env = workerEnv(100)
+		cmd.Dir = dir
+
+		_, _, timedOut = runLimited(cmd, 10*hangLimit)
+		trace = tail(errFile, 1<<20)
+
+		if i := strings.Index(trace, "C07-SINGLE-START"); i >= 0 {
+			trace = trace[i:]
+		}
+
+		crashed, head = goCrash(trace)
+	}
+
+	switch {
+	case len(extra) > 0:
+		c.Single = "n/a (command line options are only tried with the ego binary)"
+	case crashed:
+		c.Single, c.SingleHead, c.Trace, c.Site = "crashed", head, trimTrace(trace), crashSite(trace)
+	case timedOut:
+		c.Single = "timeout"
+	case strings.Contains(trace, "C07-SINGLE-END"):
+		c.Single = "survived"
+	default:
+		c.Single = "ended without a Go crash trace: " + strings.TrimSpace(tail(errFile, 300))
+	}
+
+	if driver != drvRun && driver != drvPipe {
+		c.Real = "n/a"
+
+		return c
+	}
+
+	ego := os.Getenv("VERIF_EGO")
+	if ego == "" {
+		c.Real = "n/a (no ego binary)"
+
+		return c
+	}
+
+	home := filepath.Join(scratch, "fhome")
+	env := append(os.Environ(), "HOME="+home, "TMPDIR="+filepath.Join(scratch, "tmp"), "GOTRACEBACK=all")
+
+	primed.Do(func() {
+		// The first ego run in an empty HOME writes the default profile; the
+		// workers are past that point, so the confirmation runs start past it
+		// as well.
+		_ = os.MkdirAll(home, 0o755)
+		warm := filepath.Join(scratch, "prime.ego")
+		_ = os.WriteFile(warm, []byte("func main() {\n}\n"), 0o644)
+		p := exec.Command(ego, "run", "--sandbox=true", warm)
+		p.Env, p.Dir = env, scratch
+		_, _, _ = runLimited(p, 2*time.Minute)
+	})
+
+	// `ulimit -v` around the real binary, as around the workers.
+	var sh string
+	opts := ""
+	for _, x := range extra {
+		opts += fmt.Sprintf(" %q", x)
+	}
+
+	if driver == drvRun {
+		sh = fmt.Sprintf("ulimit -v %d; exec %q run --sandbox=true%s %q < /dev/null", memoryLimit>>10, ego, opts, file)
+	} else {
+		sh = fmt.Sprintf("ulimit -v %d; exec %q run --sandbox=true%s < %q", memoryLimit>>10, ego, opts, file)
+	}
+
+	rc := exec.Command("/bin/sh", "-c", sh)
+	rc.Env, rc.Dir = env, dir
+
+	out, exit, timedOut := runLimited(rc, 10*hangLimit)
+	crashed, head = goCrash(out)
+	c.RealExit = exit
+
+	switch {
+	case crashed:
+		c.Real, c.RealHead, c.Trace, c.Site = "crashed", head, trimTrace(out), crashSite(out)
+	case timedOut:
+		c.Real = "timeout"
+	default:
+		c.Real = "survived"
+	}
+
+	return c
+}
+
+// genuine: the crash was reproduced where the statement observes it.
+func (c confirmation) genuine(driver int) bool {
+	if driver == drvRun || driver == drvPipe {
+		return c.Real == "crashed"
+	}
+
+	return c.Single == "crashed"
+}
+
+type witness struct {
+	Driver  string       `json:"driver"`
+	DriverN int          `json:"driver_id"`
+	Options []string     `json:"ego_run_options,omitempty"`
+	Phase   string       `json:"phase,omitempty"`
+	Index   int64        `json:"index,omitempty"`
+	Input   string       `json:"input"`
+	Source  string       `json:"source"`
+	Seen    string       `json:"seen_in_batch"`
+	Confirm confirmation `json:"confirmation"`
+}
+
+func main() {
+	if len(os.Args) > 2 && os.Args[1] == "c07worker" {
+		switch os.Args[2] {
+		case "batch":
+			workerBatch(os.Args[3:])
+		case "single":
+			workerSingle(os.Args[3:])
+		}
+
+		os.Exit(4)
+	}
+
+	r := report.New("exploration")
+	ph := phases(r.Thorough())
+
+	if len(ph) > maxPhases {
+		report.Fatal("too many phases")
+	}
+
+	r.Assume(
+		"in-process drivers repeat the entry points with the functions of the working tree (commands.runSession.run/runLoop, admin.RunCodeHandler behind router.ServeHTTP); a crash is only reported after it was reproduced alone in a fresh process and, for `ego run`, with the plain ego binary",
+		"console input is a readline instance over a scripted reader (no terminal): key handling of a real terminal is not covered",
+		fmt.Sprintf("one evaluation is cut after %d bytecode instructions (deterministic), when the worker is blocked (no runnable thread, no processor time for 1.2 s) or after 30 s of processor time; the last two are counted as timeouts, which the statement allows", instructionBudget),
+		"texts are pure: identifiers outside the language are only fmt, strings, math, errors; sandbox on; HOME, TMPDIR, cwd inside the scratch directory; workers under an address-space limit",
+	)
+
+	if r.Replay != "" {
+		var w witness
+		if err := report.LoadReplay(r.Replay, &w); err != nil {
+			report.Fatal("%v", err)
+		}
+
+		c := confirm(w.DriverN, w.Source, w.Options...)
+		w.Confirm = c
+
+		r.Eval(1)
+		r.Distinct(w.Source)
+		r.Distinct("replay")
+		r.Sample(w)
+		r.Rule("replay of one witness")
+
+		if c.genuine(w.DriverN) {
+			r.Violation("crash:"+c.Site, len(w.Source), w, "Go crash reproduced: "+c.SingleHead+c.RealHead)
+		}
+
+		r.Finish()
+	}
+
+	var total int64
+	for _, p := range ph {
+		total += p.n
+	}
+
+	results := make([]workerResult, nWorkers)
+	t0 := time.Now()
+
+	var wg sync.WaitGroup
+
+	for k := 0; k < nWorkers; k++ {
+		wg.Add(1)
+
+		go func(k int) {
+			defer wg.Done()
+
+			results[k] = runWorker(k, r.Tier)
+		}(k)
+	}
+
+	wg.Wait()
+
+	fmt.Fprintf(os.Stderr, "C07-INFO enumeration finished after %.0fs\n", time.Since(t0).Seconds())
+
+	// ---- merge the counters ---------------------------------------------------
+	counts := make([][nClasses]int64, len(ph))
+
+	for k := 0; k < nWorkers; k++ {
+		st, err := mapState(filepath.Join(scratch, fmt.Sprintf("w%d.state", k)), false)
+		if err != nil {
+			report.Fatal("%v", err)
+		}
+
+		for p := range ph {
+			for c := 0; c < nClasses; c++ {
+				counts[p][c] += int64(st.count(p, c))
+			}
+		}
+	}
+
+	var (
+		cands    []candidate
+		hangs    []candidate
+		strays   int
+		restarts int
+	)
+
+	for _, res := range results {
+		cands = append(cands, res.cands...)
+		hangs = append(hangs, res.hangs...)
+		strays += res.strays
+		restarts += res.restarts
+	}
+
+	sort.Slice(cands, func(i, j int) bool {
+		if cands[i].Phase != cands[j].Phase {
+			return cands[i].Phase < cands[j].Phase
+		}
+
+		return cands[i].Idx < cands[j].Idx
+	})
+
+	perDriver := map[string]int64{}
+	perClass := make([]int64, nClasses)
+
+	var evaluated int64
+
+	for p := range ph {
+		var n int64
+
+		for c := 0; c < nClasses; c++ {
+			if c != clExecuted {
+				n += counts[p][c]
+				perClass[c] += counts[p][c]
+			}
+		}
+
+		perClass[clExecuted] += counts[p][clExecuted]
+		evaluated += n
+		perDriver[driverNames[ph[p].driver]] += n
+
+		r.Set("phase:"+ph[p].name, fmt.Sprintf("%d of %d texts evaluated, %d executed code", n, ph[p].n, counts[p][clExecuted]))
+
+		for j := int64(0); j < counts[p][clExecuted]; j++ {
+			r.Distinct(fmt.Sprintf("%s#%d", ph[p].name, j))
+		}
+	}
+
+	deaths := 0
+
+	for _, c := range cands {
+		if c.Kind == "death" {
+			deaths++
+		}
+	}
+
+	evaluated += int64(len(hangs) + deaths)
+	r.Eval(int(evaluated))
+
+	for c := 0; c < nClasses; c++ {
+		r.Set("outcome:"+classNames[c], perClass[c])
+	}
+
+	r.Set("outcome:timeout_wall_clock", len(hangs))
+	r.Set("outcome:worker_died", deaths)
+	r.Set("evaluations_per_driver", perDriver)
+	r.Set("workers", nWorkers)
+	r.Set("worker_replacements", restarts)
+	r.Set("replaced_for_leftover_goroutines", strays)
+	r.Set("token_alphabet", alphabet)
+	r.Set("seed_programs", len(seedText))
+
+	if evaluated != total {
+		r.Capped(fmt.Sprintf("%d of %d texts were not evaluated", total-evaluated, total))
+	}
+
+	for i, h := range hangs {
+		if i < 3 {
+			src, desc, _ := ph[h.Phase].text(h.Idx)
+			r.Set(fmt.Sprintf("timeout_example_%d", i), map[string]string{"driver": driverNames[ph[h.Phase].driver], "input": desc, "source": src})
+		}
+	}
+
+	for _, i := range []int64{0, 7, 23} {
+		for _, p := range []int{4, 8} {
+			if p < len(ph) && i < ph[p].n {
+				src, desc, _ := ph[p].text(i * 997 % ph[p].n)
+				r.Sample(map[string]string{"driver": driverNames[ph[p].driver], "input": desc, "source": src})
+			}
+		}
+	}
+
+	r.Rule(fmt.Sprintf("every token sequence up to the phase's length over a %d-token alphabet (as whole text, inside func main, one token per console line) and every single-token deletion, duplication, adjacent swap and substitution by each alphabet token of %d seed programs (thorough: plus pairs of edits on %d core seeds), each through the drivers named in the phase list; distinct = a (driver, text) pair whose text executed at least one bytecode instruction of its own", len(alphabet), len(seedText), len(coreSeeds)))
+
+	// ---- triage of the candidates -----------------------------------------------
+	// One root cause shows through every driver and in hundreds of texts: the
+	// candidates are grouped by the function that crashed and the kind of
+	// crash, and the three smallest texts of a group are re-run alone.
+	type group struct {
+		key     string
+		items   []candidate
+		drivers map[string]int
+	}
+
+	groups := map[string]*group{}
+
+	var order []string
+
+	for _, c := range cands {
+		trace := c.Stack
+		msg := c.Panic
+
+		if c.Kind == "death" {
+			trace = c.Stderr
+			_, msg = goCrash(c.Stderr)
+		}
+
+		key := crashSite(trace) + "|" + panicClass(msg)
+
+		g := groups[key]
+		if g == nil {
+			g = &group{key: key, drivers: map[string]int{}}
+			groups[key] = g
+			order = append(order, key)
+		}
+
+		g.items = append(g.items, c)
+		g.drivers[driverNames[ph[c.Phase].driver]]++
+	}
+
+	sort.Strings(order)
+
+	unconfirmed := []map[string]any{}
+
+	for _, key := range order {
+		g := groups[key]
+
+		// smallest texts first
+		sort.SliceStable(g.items, func(i, j int) bool {
+			a, _, _ := ph[g.items[i].Phase].text(g.items[i].Idx)
+			b, _, _ := ph[g.items[j].Phase].text(g.items[j].Idx)
+
+			return len(a) < len(b)
+		})
+
+		confirmed := false
+
+		var first *witness
+
+		for n, c := range g.items {
+			if n >= 3 {
+				break
+			}
+
+			src, desc, _ := ph[c.Phase].text(c.Idx)
+			driver := ph[c.Phase].driver
+
+			seen := c.Kind + ": " + c.Panic
+			if c.Kind == "death" {
+				_, h := goCrash(c.Stderr)
+				seen = "worker died: " + h
+			}
+
+			// Where the statement observes a crash: the process of `ego run`
+			// (file or pipe), the console process, the server process. A
+			// handler panic the router recovers does not end the server, so a
+			// text seen that way is tried as a file with the ego binary; so is
+			// a console text that does not crash the console.
+			type attempt struct {
+				d    int
+				opts []string
+			}
+
+			var attempts []attempt
+
+			// The run endpoint executes with dynamic typing; `ego run` does so
+			// with --types dynamic.
+			dynamic := []string{"--types", "dynamic"}
+
+			switch {
+			case c.Kind == "router_panic":
+				attempts = []attempt{{drvRun, nil}, {drvRun, dynamic}}
+			case driver == drvSrv:
+				attempts = []attempt{{drvRun, nil}, {drvSrv, nil}, {drvRun, dynamic}}
+			case driver == drvRepl:
+				attempts = []attempt{{drvRun, nil}, {drvRepl, nil}}
+			default:
+				attempts = []attempt{{driver, nil}}
+			}
+
+			for _, at := range attempts {
+				d := at.d
+
+				text := src
+				if d != driver {
+					text = asFile(src)
+				}
+
+				tc := time.Now()
+				cf := confirm(d, text, at.opts...)
+
+				fmt.Fprintf(os.Stderr, "C07-INFO confirmation of %q via %s %v took %.0fs: worker %s, ego %s\n", key, driverNames[d], at.opts, time.Since(tc).Seconds(), cf.Single, cf.Real)
+
+				w := witness{Driver: driverNames[d], DriverN: d, Options: at.opts, Phase: ph[c.Phase].name, Index: c.Idx, Input: desc, Source: text, Seen: driverNames[driver] + ": " + seen, Confirm: cf}
+
+				if first == nil {
+					first = &w
+				}
+
+				if cf.genuine(d) {
+					confirmed = true
+					cell := "crash:" + cf.Site
+					msg := fmt.Sprintf("%s%s: the text ends the process with a Go crash (%s%s); texts crashing at this site in the batch, per driver: %v", driverNames[d], strings.Join(append([]string{""}, at.opts...), " "), cf.RealHead, ifEmpty(cf.RealHead, cf.SingleHead), g.drivers)
+
+					for i := 0; i < len(g.items); i++ {
+						r.Violation(cell, len(text), w, msg)
+					}
+
+					break
+				}
+			}
+
+			if confirmed {
+				break
+			}
+		}
+
+		if !confirmed && first != nil {
+			unconfirmed = append(unconfirmed, map[string]any{"group": key, "texts": len(g.items), "example": *first})
+		}
+	}
+
+	r.Set("candidate_groups", len(order))
+	r.Set("candidates", len(cands))
+
+	if len(unconfirmed) > 0 {
+		if len(unconfirmed) > 5 {
+			unconfirmed = unconfirmed[:5]
+		}
+
+		r.Set("candidates_not_reproduced_alone", unconfirmed)
+	}
+
+	r.Finish()
+}
+
+// asFile turns a text written for the run endpoint or the console into the
+// file the same program is for `ego run`: the explicit call of main that those
+// two need is what the command's entry point directive does for a file.
+func asFile(src string) string {
+	if strings.Contains(src, "func main (") {
+		return strings.TrimSuffix(src, "main ( )\n")
+	}
+
+	return src
+}
+
+func ifEmpty(a, b string) string {
+	if a == "" {
+		return b
+	}
+
+	return ""
 }
